@@ -216,6 +216,29 @@ pub struct Watch {
     pub use_hook: bool,
     /// topic the application meant with the PUBLISH it is sending right now
     pending_intended: Option<String>,
+    /// when set: every library call with its canonical event list (twin comparisons)
+    pub trace: Option<Vec<(String, Vec<Ev>)>>,
+    /// when set: the concrete calls made (C09 re-chunking)
+    pub calls: Option<Vec<WCall>>,
+}
+
+/// A concrete call on the connection object (lowest-level, fully determined script).
+#[derive(Clone, Debug, PartialEq)]
+pub enum WCall {
+    Send(Pkt),
+    Feed(Vec<u8>),
+    Timer(Tk),
+    Closed,
+    Acquire,
+    Register(u32),
+    Release(u32),
+    Erase(u32),
+    SetPing(Option<u64>),
+    Crash(ExportMangle),
+    /// from here on the protocol model is off (adversarial input follows)
+    Lenient,
+    /// a transport write failed: the flow-control bookkeeping of this connection is void
+    WriteFailed,
 }
 
 thread_local! {
@@ -280,11 +303,29 @@ impl Watch {
             want_close: false,
             use_hook: true,
             pending_intended: None,
+            trace: None,
+            calls: None,
         }
     }
 
     pub fn failed(&self) -> bool {
         self.viol.is_some()
+    }
+
+    pub fn write_failed(&mut self) {
+        self.m.flow_ambiguous = true;
+        if let Some(c) = self.calls.as_mut() {
+            c.push(WCall::WriteFailed);
+        }
+    }
+
+    pub fn set_lenient(&mut self) {
+        if !self.lenient {
+            self.lenient = true;
+            if let Some(c) = self.calls.as_mut() {
+                c.push(WCall::Lenient);
+            }
+        }
     }
 
     pub fn flag(&mut self, props: &[&'static str], class: impl Into<String>, msg: impl Into<String>) {
